@@ -640,8 +640,11 @@ def install():
                 elif name == "_handle_call" and len(args) in (2, 3):
                     if isinstance(args[0], CallSpy):
                         args = (args[0].fn,) + tuple(args[1:])
-                    r.touch("call", args[0], "", (args[1], args[2] if len(args) == 3 else ()))
-                    touched = True
+                    kw = args[2] if len(args) == 3 else ()
+                    if type(args[1]) is tuple and type(kw) is tuple:
+                        # the call itself (`obj(*args, **dict(kwargs))`) is reached only past the two type checks
+                        r.touch("call", args[0], "", (args[1], kw))
+                        touched = True
                 res = orig(self, *args, **kw)
             except BaseException as ex:
                 if touched:
@@ -816,31 +819,11 @@ def install():
 
     def rc_decref(self, key, count=1):
         r = active()
-        if r is None or self is not r.conn._local_objects or type(count) in (int, bool) or key not in self._dict:
-            return orig_decref(self, key, count)
-        from rpyc.core import brine
-        if (brine.dumpable(count) and type(count) is not float) or type(count) is tuple:
-            return orig_decref(self, key, count)
-        if r.pv(count).startswith("P"):
-            # RefCountingColl.decref compares `slot[1] < count` while holding its non-reentrant lock: with a proxy as
-            # count that comparison calls back into the peer, and a nested request that resolves a LOCAL_REF then
-            # blocks the serving thread forever (reported as an observation; not run here)
-            raise Unobservable("decref with a proxy as count (would compare under the table lock)")
-        r.touch("countop", count, "", (key,))
-        try:
-            res = orig_decref(self, key, count)
-        except BaseException as ex:
-            r.failed(ex)
-            raise
-        slot = self._dict.get(key)
-        if slot is None:
-            r.done(None)
-        elif type(slot[1]) is int:
-            r.done(slot[1])
-        else:
-            r.open.pop()
-            raise Unobservable("reference count became %s" % type(slot[1]).__name__)
-        return res
+        if r is not None and self is r.conn._local_objects and type(count) is not int and key in self._dict:
+            # only reachable when `_handle_del` lost its type check: anything but an int is compared and subtracted
+            # under the table's non-reentrant lock (a proxy there can block the serving thread for good)
+            raise Unobservable("decref with a %s as count" % type(count).__name__)
+        return orig_decref(self, key, count)
     colls.RefCountingColl.decref = rc_decref
 
     # ---- process-wide monitors for the direct oracle
